@@ -375,6 +375,24 @@ def v6(run, project, roles, L):
         run.ob("V6", okp and norm(cp).startswith(fn.args.args[0].arg), "path is <root>/<selector field>",
                f"constraint_path is `{norm(cp) if cp is not None else None}`", module=mod, node=ce, func=fn.name,
                construct="ValueConstraint.constraint_path [command code]")
+        # declared type: the type of the selector field (the field whose name the path ends with), read from the layout
+        tt = kwarg(ce, "tpm_type")
+        tv = V.resolve(tt, ce) if tt is not None else None
+        ms = match(cp, "M_p + PathNode(M_s)") or match(cp, "M_p / PathNode(M_s)") if cp is not None else None
+        sname = norm(ms["M_s"]) if ms else None
+        okt = False
+        if tv is not None and sname is not None:
+            for pat in ("next((M_f.type for M_f in fields(M_t) if M_f.name == M_s))", "next((M_f.type for M_f in fields(M_t) if M_s == M_f.name))",
+                        "{M_f.name: M_f.type for M_f in fields(M_t)}[M_s]", "type(values[M_s])"):
+                m_ = match(tv, pat)
+                if m_ is not None and norm(m_["M_s"]) == sname and ("M_t" not in m_ or norm(V.resolve(m_["M_t"], ce)) == "Command"):
+                    okt = True
+            if norm(tv) == L.TPM_CC.name:
+                okt = True
+        run.ob("V6", okt, "declared type is the selector field's type",
+               f"tpm_type is `{norm(tv) if tv is not None else None}`: not the declared type of the field `{sname}` the error points at "
+               "(the error names a wrong type, or the name is unbound and the conversion itself fails)", module=mod, node=ce, func=fn.name,
+               construct="ValueConstraint.tpm_type [command code]")
     else:
         run.ob("V6", False, "constraint is a ValueConstraint", "constraint not recognised", module=mod, node=b, func=fn.name,
                construct=VERR + ".constraint [command code]")
